@@ -200,6 +200,25 @@ def canonical_compound(fn):
     return n_rw
 
 
+def canonical_emplace(fn):
+    """v.emplace_back(x) with a single argument on a standard sequence is v.push_back(x) for every purpose of the rules
+    (the element is constructed from x either way): loaded as push_back."""
+    n_rw = 0
+    for part in (fn.get("inits"), fn.get("body")):
+        if part is None:
+            continue
+        for n in _walk(part):
+            if n.get("k") == "MCall" and n.get("m") == "emplace_back" and (n.get("cls") or "").startswith("std::") and len([a for a in n.get("a") or [] if isinstance(a, dict) and a.get("k") != "DefArg"]) == 1:
+                n["m"] = "push_back"
+                if n.get("fn"):
+                    n["fn"] = n["fn"].replace("emplace_back", "push_back")
+                n_rw += 1
+            elif n.get("k") in ("Call", "MCall") and isinstance(n.get("callee"), dict) and n["callee"].get("k") in ("DMem", "UMem") and n["callee"].get("n") == "emplace_back" and len(n.get("a") or []) == 1:
+                n["callee"]["n"] = "push_back"
+                n_rw += 1
+    return n_rw
+
+
 def normalise(fn):
     """Rename the locals of `fn` (in place) to the pinned tree's names where the alignment is unambiguous."""
     if os.environ.get("VERIF_REFNAMES_RECORD"):
